@@ -51,6 +51,11 @@ func (v *V) Sum(a, b int) int { return a + b }
 // Panic panics with a payload chosen by kind (C13).
 func (v *V) Panic(ctx context.Context, kind int) (int, error) {
 	v.L.Add("V.Panic", kind)
+	if kind >= 100 {
+		// the handler panics while cleaning up after its context was cancelled
+		<-ctx.Done()
+		kind -= 100
+	}
 	switch kind {
 	case 0:
 		panic("string payload")
@@ -67,9 +72,27 @@ func (v *V) Panic(ctx context.Context, kind int) (int, error) {
 	case 5:
 		var xs []int
 		_ = xs[3]
+	case 6:
+		panic(Problems{fmt.Errorf("first problem"), fmt.Errorf("second problem")}) // an error whose dynamic type is not hashable
+	case 7:
+		panic(map[string]int{"a": 1})
+	case 8:
+		panic(func() {})
+	case 9:
+		panic([]byte("bytes payload"))
+	case 10:
+		var e error
+		panic(e) // panic(nil): a *runtime.PanicNilError since Go 1.21
+	case 11:
+		panic(&api.Pt{X: 1, Y: "two"})
 	}
 	return 0, nil
 }
+
+// Problems is an aggregate error: a slice type, hence unhashable as a dynamic interface value.
+type Problems []error
+
+func (p Problems) Error() string { return fmt.Sprintf("%d problems", len(p)) }
 
 func (v *V) PanicNotify(ctx context.Context, kind int) {
 	v.Panic(ctx, kind)
